@@ -221,6 +221,10 @@ def st_segment(ops, base_dir, clock, files_model):
                     try:
                         data = getattr(ds, fn)()
                         loaded = type(ds).load(data)
+                        if op[1].endswith(("0", "3", "6")):
+                            # the same in-memory saved form loaded a second time: loading must not consume or alter it
+                            loaded = type(ds).load(data)
+                            bump("probe_saved_form_loaded_twice")
                     except Exception as e:  # noqa: BLE001
                         key = _finding_key(ds, e)
                         return {"violation": ["C05.roundtrip-raised", f"{what} raised {type(e).__name__}: {str(e)[:200]}", key], "files": files, "events": events, "stats": stats}
